@@ -122,6 +122,10 @@ def handle (st : St) (line : String) : St × String :=
         match n.toNat? with
         | some n => ({ st with ctl := some (setFlag c n (fun f => { f with broken := true })) }, "ok")
         | none => (st, "bad-op")
+      | ["flag-unbroken", n] =>
+        match n.toNat? with
+        | some n => ({ st with ctl := some (setFlag c n (fun f => { f with broken := false })) }, "ok")
+        | none => (st, "bad-op")
       | ["flag-sent", n] =>
         match n.toNat? with
         | some n => ({ st with ctl := some (setFlag c n (fun f => { f with sent := true })) }, "ok")
